@@ -23,11 +23,11 @@ Proof.
   change (bpow radix2 0) with 1 in L. lra.
 Qed.
 
-(* ux <= 1/4: more than enough room for the sizes of the examples *)
-Lemma ux_small : ux <= / 4.
+(* ux <= 1/1024: more than enough room for the sizes of the examples *)
+Lemma ux_small : ux <= / 1024.
 Proof.
-  unfold ux. assert (L : bpow radix2 (-53 + 1) <= bpow radix2 (-1)) by (apply bpow_le; lia).
-  change (bpow radix2 (-1)) with (/ 2) in L. lra.
+  unfold ux. assert (L : bpow radix2 (-53 + 1) <= bpow radix2 (-9)) by (apply bpow_le; lia).
+  change (bpow radix2 (-9)) with (/ 512) in L. lra.
 Qed.
 
 Lemma rndx_rel x : exists d, Rabs d <= ux /\ rndx x = x * (1 + d).
@@ -85,3 +85,24 @@ Proof.
     rewrite Z.pow_pos_fold in D. rewrite <- (positive_nat_Z p) in D.
     apply Z.mod_divide in D; [|lia]. destruct (pow2_mod3 (Pos.to_nat p)); lia.
 Qed.
+
+Lemma rndx_0 : rndx 0 = 0.
+Proof. unfold rndx. apply round_0. apply valid_rnd_N. Qed.
+
+Lemma rndx_nz x : x <> 0 -> rndx x <> 0.
+Proof.
+  intros Hx. destruct (rndx_rel x) as (d & Hd & ->). pose proof ux_range.
+  assert (- ux <= d <= ux) by (unfold Rabs in Hd; destruct (Rcase_abs d); lra).
+  apply Rmult_integral_contrapositive_currified; [exact Hx|lra].
+Qed.
+
+(* driving a model function through the comparisons of the real-number instance on concrete data:
+   evaluate, normalise |numeral|, decide the comparison that surfaced (both branches are kept when the data do
+   not decide it) *)
+Ltac flx_step :=
+  cbn; rewrite ?Rabs_R0, ?(Rabs_pos_eq 1), ?(Rabs_pos_eq 2), ?(Rabs_pos_eq 3), ?(Rabs_pos_eq 4) by lra;
+  match goal with
+  | |- context [Rlt_dec ?a ?b] => destruct (Rlt_dec a b); try (exfalso; lra)
+  | |- context [Req_EM_T ?a ?b] => destruct (Req_EM_T a b); try (exfalso; lra)
+  | |- context [Rle_dec ?a ?b] => destruct (Rle_dec a b); try (exfalso; lra)
+  end.
